@@ -40,6 +40,16 @@ def ev(e, env):
         return tuple(ev(x, env) for x in e.elts)
     if isinstance(e, ast.UnaryOp) and isinstance(e.op, ast.Not):
         return not ev(e.operand, env)
+    if isinstance(e, ast.UnaryOp) and isinstance(e.op, ast.USub):
+        v = ev(e.operand, env)
+        if isinstance(v, (int, float)) and not isinstance(v, bool):
+            return -v
+        raise Undecided('negation of a non-number')
+    if isinstance(e, ast.BinOp) and isinstance(e.op, (ast.Add, ast.Sub)):
+        a, b = ev(e.left, env), ev(e.right, env)
+        if all(isinstance(x, int) and not isinstance(x, bool) for x in (a, b)):
+            return a + b if isinstance(e.op, ast.Add) else a - b
+        raise Undecided('arithmetic on non-integers')
     if isinstance(e, ast.BoolOp):
         v = None
         for x in e.values:
@@ -69,6 +79,20 @@ def ev(e, env):
                 raise Undecided('comparison of unordered kinds')
             left = right
         return True
+    if isinstance(e, ast.Call) and not e.keywords and len(e.args) == 2 and norm(e.func) == 'isinstance':
+        types = {'list': list, 'dict': dict, 'str': str, 'bool': bool, 'int': int, 'float': float, 'tuple': tuple,
+                 'six.string_types': str, 'six.text_type': str, 'six.binary_type': bytes, 'bytes': bytes,
+                 'six.integer_types': int, 'set': set, 'numbers.Number': (int, float), 'numbers.Integral': int,
+                 'slice': slice}
+        types.update(env.get('__types__', {}))      # rule-supplied classes (an empty tuple: never an instance)
+        tn = e.args[1]
+        names = [norm(x) for x in tn.elts] if isinstance(tn, ast.Tuple) else [norm(tn)]
+        if all(n in types for n in names):
+            flat = []
+            for n in names:
+                flat.extend(types[n] if isinstance(types[n], tuple) else (types[n],))
+            return isinstance(ev(e.args[0], env), tuple(flat))
+        raise Undecided('isinstance against %s' % norm(tn))
     if isinstance(e, ast.Call) and not e.keywords and len(e.args) == 1:
         f = norm(e.func)
         a = ev(e.args[0], env)
